@@ -288,12 +288,21 @@ DEFOP(patch_apply) {
     cJSON *patch = build_from_model(w.pending_patch);
     if (!patch) { w.noop(st, "patch document could not be materialised"); return; }
     struct Del { cJSON *c; ~Del() { cJSON_Delete(c); } } dl{patch};
-    // reference evaluation on a copy of the model
+    // reference evaluation on a copy of the model: once with exact number equality in 'test', once with the library's
+    // tolerant notion (they differ only for numbers within one part in 2^52)
     MVal *ref = mv_clone_value(doc);
     ref->keystate = K_NONE; ref->key.clear();
     std::string rwhy;
+    rfc_number_tolerant = false;
     bool ref_ok = rfc6902_apply(&ref, w.pending_patch, rwhy);
     struct FreeRef { MVal *&m; ~FreeRef() { mv_free(m); } } fr{ref};
+    MVal *ref2 = mv_clone_value(doc);
+    ref2->keystate = K_NONE; ref2->key.clear();
+    std::string rwhy2;
+    rfc_number_tolerant = true;
+    bool ref2_ok = rfc6902_apply(&ref2, w.pending_patch, rwhy2);
+    rfc_number_tolerant = false;
+    struct FreeRef2 { MVal *&m; ~FreeRef2() { mv_free(m); } } fr2{ref2};
     bool corrupt = w.pending_corrupt;
     std::string ptxt = mv_dump(w.pending_patch, 700), dtxt = mv_dump(doc, 300);
     long live0 = (long)asim::live_blocks(), owned0 = owned_block_count(doc->c) + owned_block_count(patch);
@@ -318,6 +327,7 @@ DEFOP(patch_apply) {
         }
     }
     if (!corrupt) {
+        if ((status == 0) != ref_ok && (status == 0) == ref2_ok) { ref_ok = ref2_ok; std::swap(ref, ref2); w.stats.probes["patch_number_tolerance_decided"]++; }
         if ((status == 0) != ref_ok) {
             w.mismatch("patch-status", "ApplyPatchesCaseSensitive returned " + I(status) + " but RFC 6902 evaluation " + (ref_ok ? "succeeds" : "fails (" + rwhy + ")") + " [doc " + dtxt + " patch " + ptxt + "]");
             return;
@@ -330,7 +340,7 @@ DEFOP(patch_apply) {
             EqOpts eo; eo.obj_as_set = true;
             std::string ew;
             got->keystate = K_NONE; got->key.clear();
-            if (!mv_equal(ref, got, eo, &ew)) { w.mismatch("patch-result", "patched document differs from the RFC 6902 result: " + ew + " [doc " + dtxt + " patch " + ptxt + " expected " + mv_dump(ref, 200) + " got " + mv_dump(got, 200) + "]"); return; }
+            if (!mv_equal(ref, got, eo, &ew) && !(ref2_ok && mv_equal(ref2, got, eo, nullptr))) { w.mismatch("patch-result", "patched document differs from the RFC 6902 result: " + ew + " [doc " + dtxt + " patch " + ptxt + " expected " + mv_dump(ref, 200) + " got " + mv_dump(got, 200) + "]"); return; }
             w.mark_nontrivial();
             w.stats.state_hashes.push_back(mix64(hash_str(ptxt), hash_str(dtxt)));
             w.stats.probes["patch_succeeded"]++;
@@ -376,9 +386,16 @@ DEFOP(patch_gen) {
     struct FP { MVal *m; ~FP() { mv_free(m); } } fp{pm};
     if (!valid_patch_shape(pm, why)) { w.mismatch("gen-result", why + " [from " + ftxt + " to " + ttxt + "]"); return; }
     std::string ptxt = mv_dump(pm, 300);
-    EqOpts eo; eo.obj_as_set = true;
-    bool equal_docs = rfc_equal(from_before, to_before);
-    if (equal_docs != pm->kids.empty()) { w.mismatch("gen-empty", std::string("documents are ") + (equal_docs ? "equal" : "different") + " but the generated patch is " + (pm->kids.empty() ? "empty" : "not empty: " + ptxt) + " [from " + ftxt + " to " + ttxt + "]"); return; }
+    // "equal" is the library's semantic equality of values (numbers within relative DBL_EPSILON): exactly equal documents
+    // must give an empty patch, an empty patch is only allowed for documents equal in that sense; in between either is fine
+    EqOpts eo; eo.obj_as_set = true; eo.rel_tol = 2.220446049250313e-16; eo.exact_int_below_1e15 = false;
+    rfc_number_tolerant = false;
+    bool equal_exact = rfc_equal(from_before, to_before);
+    rfc_number_tolerant = true;
+    bool equal_tolerant = rfc_equal(from_before, to_before);
+    rfc_number_tolerant = false;
+    if (equal_exact && !pm->kids.empty()) { w.mismatch("gen-empty", "documents are equal but the generated patch is not empty: " + ptxt + " [from " + ftxt + " to " + ttxt + "]"); return; }
+    if (!equal_tolerant && pm->kids.empty()) { w.mismatch("gen-empty", "documents are different but the generated patch is empty [from " + ftxt + " to " + ttxt + "]"); return; }
     // independent evaluator
     {
         MVal *ref = mv_clone_value(from_before);
@@ -474,7 +491,7 @@ DEFOP(merge_gen) {
     std::string why;
     if (!adopt_permutation(from, why)) { w.mismatch("mgen-inputs", "'from' document after generation: " + why + " [from " + ftxt + " to " + ttxt + "]"); return; }
     if (!adopt_permutation(to, why)) { w.mismatch("mgen-inputs", "'to' document after generation: " + why + " [from " + ftxt + " to " + ttxt + "]"); return; }
-    EqOpts eo; eo.obj_as_set = true;
+    EqOpts eo; eo.obj_as_set = true; eo.rel_tol = 2.220446049250313e-16; eo.exact_int_below_1e15 = false;  // equality of values as the library defines it
     std::string ew, ptxt = "NULL";
     MVal *pm = nullptr;
     if (patch) {
